@@ -25,7 +25,7 @@ ASSUMPTIONS = ["where no valid argument exists in the state (truncate of an empt
                "snapshot compares file content, kind and permission bits; mtime is ignored"]
 EXHAUSTIVE = "the full kind x state x metadata x how x mutator matrix (no preceding history)"
 KINDS = {'Array': ['empty', 'nonempty', 'empty2d'], 'Ragged': ['nosub', 'emptyvalues', 'nonempty']}
-HOWS = ['default-open', 'create-r', 'assign', 'r-r+-r', 'after-r+block']
+HOWS = ['default-open', 'create-r', 'assign', 'r-r+-r', 'after-r+block', 'reassign-r-after-metadata-r+', 'after-nested-mixed-blocks', 'switched-inside-open-context']
 MUTS = {'Array': ['setitem', 'append', 'iterappend', 'truncate', 'delete', 'md.update', 'md.setitem', 'md.pop', 'md.popdefault', 'md.popitem', 'md.del'],
         'Ragged': ['append', 'append0', 'iterappend', 'truncate', 'delete', 'md.update', 'md.setitem', 'md.pop', 'md.popdefault', 'md.popitem', 'md.del']}
 MUST_HIT = [f'how:{h}' for h in HOWS] + [f'Array:{s}' for s in KINDS['Array']] + [f'Ragged:{s}' for s in KINDS['Ragged']] + \
@@ -112,6 +112,7 @@ def execute(ctx, spec):
     with ctx.scratch() as d:
         path = os.path.join(d, 'x.darr')
         pre = spec.get('pre', [])
+        keepopen = None
         try:
             if how == 'create-r':
                 h = _create(kind, state, meta, path, 'r')
@@ -138,6 +139,44 @@ def execute(ctx, spec):
                     else:
                         with h.open_arrays(accessmode='r+'):
                             _ = len(h)
+                elif how == 'reassign-r-after-metadata-r+':
+                    # the metadata object's own mode was set to r+; assigning 'r' to the handle (which already reports 'r') must bring it back
+                    h = _open(kind, path)
+                    h.metadata.accessmode = 'r+'
+                    h.accessmode = 'r'
+                elif how == 'after-nested-mixed-blocks':
+                    # read-only and read-write blocks nested in both orders, plus a chunk iterator, all finished before the test
+                    h = _open(kind, path)
+                    if kind == 'Array':
+                        with h.open_array():
+                            with h.open_array(accessmode='r+'):
+                                _ = len(h)
+                        with h.open_array(accessmode='r+'):
+                            with h.open_array(accessmode='r'):
+                                _ = len(h)
+                        if len(h):
+                            for _ in h.iterchunks(1, accessmode='r'):
+                                with h.open_array(accessmode='r+'):
+                                    pass
+                                break
+                    else:
+                        with h.open_arrays():
+                            with h.open_arrays(accessmode='r+'):
+                                _ = len(h)
+                        with h.open_arrays(accessmode='r+'):
+                            with h.open_arrays(accessmode='r'):
+                                _ = len(h)
+                elif how == 'switched-inside-open-context':
+                    # an r+ handle is switched to 'r' while its arrays are held open read-write; the mutator is issued inside that context.
+                    # Only mutators that are guarded by the handle's own mode are claimed here (append, iterappend, metadata): element
+                    # assignment, truncate and delete ask the open map, which a per-block accessmode override legitimately makes writeable.
+                    h = _open(kind, path, 'r+')
+                    keepopen = h.open_array() if kind == 'Array' else h.open_arrays()
+                    keepopen.__enter__()
+                    h.accessmode = 'r'
+                    if not (mut in ('append', 'append0', 'iterappend') or mut.startswith('md.')):
+                        keepopen.__exit__(None, None, None)
+                        keepopen = None
                 else:
                     h = _open(kind, path)
                     h.accessmode = 'r+'
@@ -157,6 +196,9 @@ def execute(ctx, spec):
         except Exception:
             raised = True
         after = snapshot(path)
+        if how == 'switched-inside-open-context' and keepopen is not None:
+            keepopen.__exit__(None, None, None)
+            after = snapshot(path)
         if not raised:
             out.viol('readonly-mutator-did-not-raise', tag, f'{mut} on a read-only {kind} ({state}) returned normally; '
                      + ('; '.join(diff(before, after)) or 'files unchanged'))
